@@ -1469,9 +1469,8 @@ func (k *c10k) invariants() []*c10Invariant {
 						}
 						good := false
 						val := mu.Value
-						ri := 0 // which result of a reading helper the vector is
 						if ex, isEx := val.(*ssa.Extract); isEx {
-							val, ri = ex.Tuple, ex.Index
+							val = ex.Tuple
 						}
 						switch x := val.(type) {
 						case *ssa.MakeSlice:
@@ -1496,32 +1495,10 @@ func (k *c10k) invariants() []*c10Invariant {
 								}
 							}
 						case *ssa.Call:
-							if g := x.Common().StaticCallee(); g != nil && g.Blocks != nil && k.c.P.IsRepoFunc(g) {
-								good = true
-								n := 0
-								for _, ret := range ssau.ReturnsOf(g) {
-									if ri >= len(ret.Results) {
-										good = false
-										break
-									}
-									if ssau.IsNilConst(ret.Results[ri]) {
-										continue
-									}
-									n++
-									mk, isMk := ret.Results[ri].(*ssa.MakeSlice)
-									pi := -1
-									if isMk {
-										for i, p := range g.Params {
-											if mk.Len == ssa.Value(p) {
-												pi = i
-											}
-										}
-									}
-									if !isMk || pi < 0 || pi >= len(x.Common().Args) || !dimOK(x.Common().Args[pi]) {
-										good = false
-									}
-								}
-								good = good && n > 0
+							// a reading helper (possibly built from smaller ones): the
+							// vector it hands back is made with one of its arguments
+							if lv := c10MadeWithLen(k.c, mu.Value, 0); lv != nil {
+								good = dimOK(lv)
 							}
 						}
 						if !good {
@@ -1592,4 +1569,57 @@ func (k *c10k) listEntryInvariant() (func(ta *ssa.TypeAssert) bool, func() (bool
 		return n > 0, "no list insertion found"
 	}
 	return covers, check
+}
+
+// c10MadeWithLen: the slice v was made with make([]T, n) here, or by a
+// function of the repository every non-nil result of which (at that position)
+// was made with the length given by one and the same parameter; returns n as
+// a value of the function v lives in, nil when that cannot be said.
+func c10MadeWithLen(c *Ctx, v ssa.Value, d int) ssa.Value {
+	if d > 4 {
+		return nil
+	}
+	ri := 0
+	if ex, ok := v.(*ssa.Extract); ok {
+		v, ri = ex.Tuple, ex.Index
+	}
+	switch x := v.(type) {
+	case *ssa.MakeSlice:
+		return x.Len
+	case *ssa.Call:
+		g := x.Common().StaticCallee()
+		if g == nil || g.Blocks == nil || !c.P.IsRepoFunc(g) {
+			return nil
+		}
+		pi, n := -1, 0
+		for _, ret := range ssau.ReturnsOf(g) {
+			if ri >= len(ret.Results) {
+				return nil
+			}
+			rv := ssau.ResultValue(ret, ri)
+			if ssau.IsNilConst(rv) {
+				continue
+			}
+			n++
+			lv := c10MadeWithLen(c, rv, d+1)
+			if lv == nil {
+				return nil
+			}
+			idx := -1
+			for i, p := range g.Params {
+				if lv == ssa.Value(p) || ssau.ParamOf(lv) == p {
+					idx = i
+				}
+			}
+			if idx < 0 || (pi >= 0 && pi != idx) {
+				return nil
+			}
+			pi = idx
+		}
+		if n == 0 || pi < 0 || pi >= len(x.Common().Args) {
+			return nil
+		}
+		return x.Common().Args[pi]
+	}
+	return nil
 }
